@@ -277,9 +277,30 @@ func raCases(env *core.Env, rng *rand.Rand, n int, o ra.Opts, lanes []string) []
 	g := &ra.Gen{R: rng, O: o}
 	var cs []core.Case
 	for i := 0; i < n; i++ {
-		cs = append(cs, &raCase{Prog: g.Program(lanes[i%len(lanes)])})
+		p := g.Program(lanes[i%len(lanes)])
+		raTerminators(p, i)
+		cs = append(cs, &raCase{Prog: p})
 	}
 	return cs
+}
+
+// raTerminators turns some programs (and their include files) into CRLF files or drops the final newline:
+// line terminators are not content.
+func raTerminators(p *ra.Program, i int) {
+	switch {
+	case i%11 == 5:
+		p.Main = strings.ReplaceAll(p.Main, "\n", "\r\n")
+		for k, v := range p.Files.Include {
+			p.Files.Include[k] = strings.ReplaceAll(v, "\n", "\r\n")
+		}
+		p.Features = append(p.Features, "crlf")
+	case i%13 == 7:
+		p.Main = strings.TrimSuffix(p.Main, "\n")
+		for k, v := range p.Files.Include {
+			p.Files.Include[k] = strings.TrimSuffix(v, "\n")
+		}
+		p.Features = append(p.Features, "no-final-newline")
+	}
 }
 
 func init() {
@@ -302,6 +323,7 @@ func init() {
 					m = c07Gen(rng)
 				}
 				m.Prog.Lane = "inc:" + m.Prog.Lane
+				raTerminators(m.Prog, i)
 				cs = append(cs, &raCase{Prog: m.Prog})
 			}
 			return cs
